@@ -151,3 +151,10 @@ func vIsQuoteConc(b byte) bool    { return b == '\'' }
 func vStrEqConc(a, b string) bool { return a == b }
 
 func vFailedAny() bool { return len(vRT.failed) > 0 }
+
+func vShowBool(b bool) string {
+	if b {
+		return "true"
+	}
+	return "false"
+}
